@@ -11,7 +11,7 @@ WALL_CAP = {'quick': 60, 'thorough': 1500}
 BLOCK = 25
 RULE = ('runs = seeded EQN sessions calling the initial steady-state search on systems whose period-to-period '
         'dynamics are stable, drifting (+/-), slowly unstable or oscillating, with fixed points of either sign and '
-        'near zero, search horizons 5..200, tolerances 1e-2..1e-6, varying excluded-variable lists; oracle = '
+        'near zero, search horizons 1..200, tolerances 1e-2..1e-6, varying excluded-variable lists; oracle = '
         '(i) parser lists, exogenous series and horizon identical before/after, (ii) if accepted: one more period '
         'solved by an independent fresh solver from the installed k=0 values with exogenous frozen moves every '
         'non-excluded variable by <= 2*tol (relative or absolute), else the search must raise NoEquilibriumError/'
@@ -106,7 +106,7 @@ def generate(seed, tier):
             g = fl(rng, 5, 50, 1)
             cut = S['knobs'].randint(1, 6)
             e[1] = '[%s,]*%d + [%s,]*%d' % (repr(g), cut, repr(round(g * 1.5, 2)), T + 5)
-    steady = {'T': S['knobs'].choice([5, 10, 20, 50, 100, 200]),
+    steady = {'T': S['knobs'].choice([1, 2, 3, 5, 10, 20, 50, 100, 200]),
               'tol': S['knobs'].choice([1e-2, 1e-3, 1e-4, 1e-5, 1e-6]),
               'excluded': ['t']}
     r = S['knobs'].random()
